@@ -178,9 +178,12 @@ def judge(case, impl, resp):
         return [], ["model error: " + resp["error"]], None
     spec = list(resp.get("spec") or [])
     disagree = []
+    if case["op"] == "subdivide" and (spec or impl != resp["out"]) and len(case["in"]["t"]) <= 60 \
+            and _float_cuts_differ(case):
+        # the bin count round(span/avg) or a cut int(i*span/n) computed in doubles differs from exact arithmetic
+        # (e.g. 10/0.4444444444444444 is 22.5 in doubles, 22.500000000000002 exactly): knife-edge, not a violation
+        return [], [], "float bin count / cut differs from exact arithmetic"
     if impl != resp["out"]:
-        if case["op"] == "subdivide" and not spec and len(case["in"]["t"]) <= 60 and _float_cuts_differ(case):
-            return spec, [], "float floor differs from exact floor"
         disagree.append(f"{case['op']}: impl != model")
     return spec, disagree, None
 
